@@ -51,6 +51,10 @@ def run(db, chk):
         true_edges |= (fe if nots % 2 else te)
         sw_found += 1
     chk.floor("switch on the `sorted` flag", sw_found, 1)
+    # an explicit order check of the parsed records (`windows(2).all(a <= b)`, is_sorted*) establishes the same fact as the header flag
+    for c in ow.calls():
+        if c.is_(r"Iterator>?::all$|::all$|::is_sorted(_by|_by_key)?$") and (c.is_(r"is_sorted") or fl.derives_from_call(c.args[0], r"::windows$")):
+            true_edges |= fl.result_edges(c)["good"]
     ok = bool(cons) and fl.cut_off(cons, true_edges | set(), start=0) if not sorts else not (set(cons) & ow.reach_from(0, avoid={s.block for s in sorts}, avoid_edges=true_edges))
     chk.ob("buffer-built-only-when-sorted", "open_with_backing", ok, "Buffer can be constructed from unsorted content without passing the re-sort", "%s:%d" % (ow.file, ow.line), key="buffer-sorted-cutset")
     # provenance of `sorted`: header.sorted or the literal false
@@ -65,6 +69,68 @@ def run(db, chk):
         clos = [g for g in db.closures_of(ow) if any(a.get("closure") == g.name or (("p" in a) and any(rv[0] == "agg" and rv[2] == g.name and pl[0] == a["p"][0] for bi, si, pl, rv, ln, mc in ow.assigns())) for a in s.args)]
         by_name = any(any(".name" in str(p) for st in g.blocks for x in st["s"] if x[0] == "a" for p in __import__("gx.facts", fromlist=["x"]).rvalue_places(x[2])) for g in clos)
         chk.ob("resort-by-name", "sort key closure reads .name", by_name, "", s.where(), key="resort-by-name")
+        # the key is compared as BYTES (the order git, the binary search and the loose/packed merge use), not as a Path (component-wise)
+        targs = s.callee.get("targs", "")
+        key_ty = targs.split(",")[1].strip() if s.name.endswith("sort_by_key") and targs.count(",") >= 2 else targs
+        bytes_key = bool(re.search(r"BStr|\[u8\]|BString|Vec<u8>", key_ty)) and not re.search(r"Path|OsStr|\bstr\b", key_ty)
+        chk.ob("resort-compares-bytes", "sort key type %s" % key_ty, bytes_key,
+               "the re-sort orders names as %s, not byte-wise: refs/heads/a/c would sort before refs/heads/a-b and the binary search misses existing references" % key_ty, s.where(), key="resort-compares-bytes")
+    # (data, offset) pairing: the offset of the first record is the parsed header length exactly when the original backing is kept, and 0 when the
+    # records were re-serialised without a header.  Either both come out of one tuple built per branch, or the two values are selected by the
+    # same decision (the nearest common dominator of their definition sites switches on the same named flag).
+    def deciders(op):
+        l = op["p"][0]
+        for _ in range(4):
+            ds = [(b2, r2) for b2, s2, p2, r2, l2, m2 in ow.assigns() if p2 == [l]]
+            if len(ds) == 1 and ds[0][1][0] == "use" and "p" in ds[0][1][1] and len(ds[0][1][1]["p"]) == 1:
+                l = ds[0][1][1]["p"][0]
+            else:
+                break
+        blocks = sorted({b2 for b2, s2, p2, r2, l2, m2 in ow.assigns() if p2[:1] == [l]} | {c.block for c in ow.calls() if c.dest and c.dest[0] == l})
+        if len(blocks) < 2:
+            return None, l
+        idom = ow.idom()
+        def chain(b):
+            out = [b]
+            while b in idom and idom[b] is not None and idom[b] != b:
+                b = idom[b]; out.append(b)
+            return out
+        common = None
+        for b in blocks:
+            c = chain(b)
+            common = c if common is None else [x for x in common if x in c]
+        ncd = next((x for x in (common or []) if ow.term(x)[0] == "switch" and "p" in ow.term(x)[1] and x not in blocks), None)
+        if ncd is None:
+            return frozenset(), l
+        names = set()
+        for x in ow.reachable_blocks():
+            t = ow.term(x)
+            if t[0] != "switch" or "p" not in t[1] or not ow.dominates(ncd, x):
+                continue
+            doms = [b for b in blocks if ow.dominates(x, b) and x != b]
+            if x == ncd or (doms and len(doms) < len(blocks)):
+                nm = {ow.local_name(r[1]) or r[1] for r in fl.roots(t[1]) if r[0] in ("var", "arg")}
+                # `?` and other compiler-made switches have no named condition: ignore them
+                names |= {n for n in nm if isinstance(n, str)}
+        return frozenset(names), l
+    for bi, si, pl, rv, ln, mc in ow.assigns():
+        if rv[0] == "agg" and rv[1] == "adt" and rv[2].endswith("packed::Buffer") and len(rv) > 5 and "offset" in rv[5] and "data" in rv[5]:
+            off_op, data_op = rv[4][rv[5].index("offset")], rv[4][rv[5].index("data")]
+            do, lo = deciders(off_op)
+            dd, ld = deciders(data_op)
+            # tuple form: both are fields of one local tuple
+            same_tuple = False
+            for op_a, op_b in ((off_op, data_op),):
+                ra = {(r[1]) for r in fl.roots(op_a) if r[0] == "var"}
+                rb = {(r[1]) for r in fl.roots(op_b) if r[0] == "var"}
+            src_o = [r2 for b2, s2, p2, r2, l2, m2 in ow.assigns() if p2 == [lo] and r2[0] == "use" and "p" in r2[1] and len(r2[1]["p"]) == 2]
+            src_d = [r2 for b2, s2, p2, r2, l2, m2 in ow.assigns() if p2 == [ld] and r2[0] == "use" and "p" in r2[1] and len(r2[1]["p"]) == 2]
+            if src_o and src_d and {r2[1]["p"][0] for r2 in src_o} == {r2[1]["p"][0] for r2 in src_d}:
+                same_tuple = True
+            ok_ = same_tuple or (do is not None and dd is not None and do == dd and bool(do))
+            chk.ob("offset-pairs-with-data", "open_with_backing: Buffer{data, offset}", ok_,
+                   "`data` is selected by %s but `offset` by %s: when the original file is kept its header must be skipped (offset = header length), when the records are re-serialised the offset is 0 - decided together" % (sorted(map(str, dd or [])), sorted(map(str, do or []))),
+                   "%s:%d" % (ow.file, ln), key="offset-pairs-with-data")
     # binary search parse failure
     bs = db.one(r"^gix_ref::store_impl::packed::find::<impl gix_ref::store_impl::packed::Buffer>::binary_search_by$")
     sets = False
